@@ -24,6 +24,10 @@ let summary names d =
   "{" ^ String.concat "," parts ^ "}"
 let writes_str t d =
   String.concat "," (List.map (fun (off, bs) -> Printf.sprintf "%d+%d+%s" (int_of_n off) (List.length bs) (native_crc bs)) (save_writes t d))
+let chunks_str t d acc =
+  let (_, parts) = List.fold_left (fun (off, out) bs -> (off + List.length bs, Printf.sprintf "%d+%d+%s" off (List.length bs) (native_crc bs) :: out))
+                     (0, []) (short_chunks t d acc) in
+  String.concat "," (List.rev parts)
 let () = main_loop (fun toks ->
   match toks with
   | fl :: nm :: ops when String.length fl = 2 && fl.[0] = 'F' && String.length nm >= 2 && String.sub nm 0 2 = "N=" ->
@@ -39,7 +43,23 @@ let () = main_loop (fun toks ->
               let (r, d') = load_limited (n_of_int (int_of_string mb * 1048576)) (z_of_string now) (nth_name i) !d in
               d := d';
               (match r with LNone -> "M=none" | LExc -> "M=EXC" | LSome (t, data) -> "M=" ^ string_of_z t ^ "." ^ hex_of_bytes data)
-          | [("S"|"L"|"X"|"K"); i] | [("S"|"L"|"X"|"K"); i; _] | [("S"|"L"|"X"|"K"); i; _; _] | [("S"|"L"|"X"|"K"); i; _; _; _] when not (okn i) -> "BAD-OP"
+          | [("S"|"L"|"X"|"K"|"W"); i] | [("S"|"L"|"X"|"K"|"W"); i; _] | [("S"|"L"|"X"|"K"|"W"); i; _; _] | [("S"|"L"|"X"|"K"|"W"); i; _; _; _] when not (okn i) -> "BAD-OP"
+          | [("D"|"H"); i; _; _] when not (okn i) -> "BAD-OP"
+          | ["H"; i; now; _] ->
+              (* read_all advances its buffer: cut reads of the header fields are transparent as well *)
+              let (r, d') = load (z_of_string now) (nth_name i) !d in
+              d := d';
+              (match r with None -> "H=none" | Some (t, data) -> "H=" ^ string_of_z t ^ "." ^ hex_of_bytes data)
+          | ["Y"; now; _] -> d := gc (z_of_string now) !d; "Y"
+          | ["D"; i; now; ks] ->
+              let acc = if ks = "-" then [] else List.map (fun k -> nat_of_int (int_of_string k)) (split_on ',' ks) in
+              let (r, d') = load_short (z_of_string now) (nth_name i) acc !d in
+              d := d';
+              (match r with None -> "D=none" | Some (t, data) -> "D=" ^ string_of_z t ^ "." ^ hex_of_bytes data)
+          | ["W"; i; t; h; ks] ->
+              let t = z_of_string t and data = bytes_of_hex h in
+              let acc = if ks = "-" then [] else List.map (fun k -> nat_of_int (int_of_string k)) (split_on ',' ks) in
+              d := save_short (nth_name i) t data acc !d; "W[" ^ chunks_str t data acc ^ "]"
           | ["S"; i; t; h] ->
               let t = z_of_string t and data = bytes_of_hex h in
               d := save (nth_name i) t data !d; "S[" ^ writes_str t data ^ "]"
